@@ -13,6 +13,8 @@
 //     attached context sends exactly one default reply (msg == NULL); arming leaves v-tables, reference count
 //     and transport of the context alone; ASan/LSan silent.
 // (c) a stream input (mpt_stream_input over a socketpair) answering a harness client: see stream_history().
+// (d) the same client against a connection over a stream (mpt_connection_dispatch), (e) mpt_stream_reply on a
+//     fixed-size output (a transport that rejects), (f) the requester side mpt_stream_sync: see the functions.
 #include "vp.hpp"
 #include "mpt_c.hpp"
 #include "ref/cobs.hpp"
@@ -525,6 +527,10 @@ struct StreamWorld {
   Ctx &c;
   int cfd = -1;
   CInput *in = 0;
+  connection *con = 0;      // scenario (d): a connection over the stream instead of a stream input
+  mpt::stream *csrm = 0;
+  CObj<connection> constore;
+  int sfd = -1;
   size_t idlen = 1;
   ref::Dialect dialect = ref::Cobs;
   std::vector<SMsg> msgs;
@@ -537,6 +543,7 @@ struct StreamWorld {
   ~StreamWorld() {
     for (auto &h : handles) h.first->vptr->reply(h.first, 0);
     if (in) in->vptr->meta.unref((CMeta *)in);
+    if (con) mpt_connection_fini(con);
     if (cfd >= 0) close(cfd);
   }
 
@@ -577,6 +584,50 @@ struct StreamWorld {
     return s.hret;
   }
 
+  // the state mpt_connection_open() leaves behind for a stream target (it needs an address to connect to; the
+  // harness has a socketpair): malloc()ed stream, RdWr|Buffer, COBS both ways, out.sock inactive. The id length
+  // has no setter in the C API, the member is written directly.
+  void open_connection() {
+    idlen = c.range(1, 8);
+    dialect = ref::Cobs;
+    int sv[2];
+    VP_CHECK(c, socketpair(AF_UNIX, SOCK_STREAM | SOCK_NONBLOCK | SOCK_CLOEXEC, 0, sv) == 0, "harness-socketpair", "socketpair failed");
+    cfd = sv[1];
+    sfd = sv[0];
+    CObj<mpt::socket> sock;
+    sock->_id = sv[0];
+    CObj<mpt::stream> tmp;
+    tmp->_rd._state.data.msg = -1;
+    c.logf("connection over a stream (socketpair, RdWr|Buffer, COBS), id length %zu", idlen);
+    int r = mpt_stream_dopen(tmp, sock, mpt::stream::RdWr | mpt::stream::Buffer);
+    if (r < 0) close(sv[0]);
+    VP_CHECK(c, r >= 0, "create-refused", "mpt_stream_dopen returned %d", r);
+    tmp->_wd._enc = mpt_message_encoder(MPT_ENUM(EncodingCobs));
+    tmp->_rd._dec = mpt_message_decoder(MPT_ENUM(EncodingCobs));
+    csrm = (mpt::stream *)malloc(sizeof(mpt::stream));
+    memcpy((void *)csrm, (void *)tmp.get(), sizeof(mpt::stream));
+    con = constore;
+    con->out.sock._id = -1;
+    cbuf(con->out.buf) = (CBuf *)csrm;
+    con->out._idlen = (uint8_t)idlen;
+  }
+  void serve_connection() {  // output_remote.c: remoteNext() = mpt_stream_poll(stream, ready events, 0), remoteDispatch() = mpt_connection_dispatch()
+    for (int guard = 0; guard < 64 && readable(sfd); guard++) {
+      int r = mpt_stream_poll(csrm, POLLIN | POLLOUT, 0);
+      c.logf("  mpt_stream_poll(POLLIN|POLLOUT, 0) -> %d", r);
+      if (r < 0) break;
+      for (int g2 = 0; g2 < 64; g2++) {
+        int d = mpt_connection_dispatch(con, handler, this);
+        c.logf("  mpt_connection_dispatch -> 0x%x", d);
+        if (d < 0 || !(d & 0x10000 /* Retry */)) break;
+      }
+    }
+    for (int guard = 0; guard < 8; guard++) {
+      int r = mpt_stream_poll(csrm, POLLOUT, 0);
+      c.logf("  mpt_stream_poll(POLLOUT, 0) -> %d", r);
+      if (r <= 0 || !(r & POLLOUT)) break;
+    }
+  }
   void open() {
     idlen = c.range(1, 8);
     bool inl = c.chance(80);
@@ -609,6 +660,7 @@ struct StreamWorld {
   }
   // what the notifier does with a ready input, then flush
   void serve(int sfd) {
+    if (con) { serve_connection(); return; }
     for (int guard = 0; guard < 64 && readable(sfd); guard++) {
       int r = in->vptr->next(in, POLLIN);
       c.logf("  next(POLLIN) -> %d", r);
@@ -659,6 +711,10 @@ struct StreamWorld {
   void settle(Anomaly &a, size_t from) {
     for (size_t i = from; i < msgs.size(); i++) {
       SMsg &s = msgs[i];
+      if (con && s.kind == KReplyType) {  // a connection hands replies to the commands waiting for them, never to the event handler
+        if (s.delivered) note(a, 6, "stream-delivery", "reply-type message " + std::to_string(i) + " was dispatched as an event");
+        continue;
+      }
       if (s.delivered != 1) { note(a, 6, "stream-delivery", "message " + std::to_string(i) + " (" + s.payload + ") was delivered to the handler " + std::to_string(s.delivered) + " times"); continue; }
       if (s.garbled) note(a, 6, "stream-delivery", "message " + std::to_string(i) + " reached the handler with a different payload");
       if (s.kind != KRequest) continue;
@@ -680,11 +736,12 @@ struct StreamWorld {
   }
 };
 
-static void stream_history(Ctx &c) {
+static void stream_history(Ctx &c, bool connection = false) {
   signal(SIGPIPE, SIG_IGN);
   StreamWorld w(c);
-  w.open();
-  int sfd = w.server_fd();
+  int sfd;
+  if (connection) { w.open_connection(); sfd = w.sfd; }
+  else { w.open(); sfd = w.server_fd(); }
   VP_CHECK(c, sfd >= 0, "harness-socketpair", "stream input does not report its descriptor");
   unsigned defaults = 0, explicits = 0, after_default = 0;
   while (c.more() && w.msgs.size() < 100) {
@@ -744,6 +801,214 @@ static void stream_history(Ctx &c) {
   if ((defaults && after_default) || (defaults && explicits)) c.nontrivial();
 }
 
+// ------------------------------------------------------------------ (e) the reply transport itself: mpt_stream_reply
+// A stream with a fixed output area (mpt_stream_memory) and a COBS encoder is a transport that rejects what does not
+// fit. History: replies of drawn sizes, application messages (mpt_stream_push, possibly left unfinished while a reply
+// is attempted). O: the finished part of the area decodes to exactly the accepted replies and finished application
+// messages, in order; a rejected reply leaves no frame; a reply that fits (encoded size + margin <= free space) and
+// does not interrupt an unfinished application message is accepted — also after earlier rejections ("a send the
+// transport rejected may be retried").
+static void transport_history(Ctx &c) {
+  size_t cap = std::max<size_t>(c.near({24, 48, 64, 128, 256}, 400), 12);
+  size_t idlen = c.range(1, 8);
+  bool inl = c.chance(80);
+  ref::Dialect d = inl ? ref::CobsR : ref::Cobs;
+  uint8_t *area = (uint8_t *)malloc(cap);
+  struct Free { void *p; ~Free() { free(p); } } fr{area};
+  memset(area, 0xAA, cap);
+  CObj<mpt::stream> srm;
+  srm->_rd._state.data.msg = -1;
+  struct iovec out = {area, cap};
+  int mode = mpt_stream_memory(srm, 0, &out);
+  VP_CHECK(c, mode >= 0, "create-refused", "mpt_stream_memory returned %d", mode);
+  srm->_wd._enc = mpt_message_encoder(inl ? MPT_ENUM(EncodingCobsInline) : MPT_ENUM(EncodingCobs));
+  c.logf("reply transport: memory stream with %zu byte output area, %s, id length %zu", cap, inl ? "COBS/R" : "COBS", idlen);
+  std::vector<std::vector<uint8_t>> want;  // finished messages, in order
+  std::vector<uint8_t> app;                // unfinished application message
+  bool app_open = false;
+  unsigned rejected = 0, accepted_after_reject = 0, serial = 0;
+  auto check_area = [&](const char *when) {
+    size_t done = srm->_wd._state.done;
+    VP_CHECK(c, done <= cap, "transport-frames", "%s: %zu finished bytes in an area of %zu", when, done, cap);
+    std::vector<std::vector<uint8_t>> got;
+    size_t start = 0;
+    for (size_t i = 0; i < done; i++) {
+      if (area[i]) continue;
+      std::vector<uint8_t> body;
+      ref::Verdict v = ref::decode(d, area + start, i - start, body);
+      VP_CHECK(c, v == ref::WellFormed, "transport-frames", "%s: the output holds a malformed frame %s", when, hex(area + start, i - start, 40).c_str());
+      got.push_back(body);
+      start = i + 1;
+    }
+    VP_CHECK(c, start == done, "transport-frames", "%s: %zu finished bytes do not end in a delimiter", when, done);
+    VP_CHECK(c, got.size() == want.size(), "transport-frames", "%s: the output holds %zu finished messages, %zu were accepted", when, got.size(), want.size());
+    for (size_t i = 0; i < got.size(); i++)
+      VP_CHECK(c, got[i] == want[i], "transport-frames", "%s: message %zu in the output is %s, accepted was %s", when, i, hex(got[i].data(), got[i].size(), 40).c_str(), hex(want[i].data(), want[i].size(), 40).c_str());
+  };
+  while (c.more() && serial < 60) {
+    size_t used = srm->_wd._state.done + srm->_wd._state.scratch;
+    size_t room = cap > used ? cap - used : 0;
+    switch (c.weighted({8, 2, 2})) {
+      case 0: {  // reply
+        std::vector<uint8_t> id = c.bytes(idlen);
+        id[0] |= 0x80;
+        id[idlen - 1] = (uint8_t)(++serial);
+        size_t n = c.flip() ? c.range(0, 12) : c.near({room / 2, room, cap}, cap + 40);
+        std::vector<uint8_t> body(n);
+        for (size_t i = 0; i < n; i++) body[i] = c.chance(40) ? 0 : (uint8_t)('a' + (i + serial) % 26);
+        // message in 1..3 non-empty parts (an empty part makes mpt_stream_append end the frame: not this property)
+        size_t cut1 = n > 1 ? c.range(1, n) : n, cut2 = n - cut1 > 1 ? c.range(cut1 + 1, n) : n;
+        struct iovec cont[2] = {{body.data() + cut1, cut2 - cut1}, {body.data() + cut2, n - cut2}};
+        message m(body.data(), cut1);
+        m.cont = cont;
+        m.clen = cut1 == n ? 0 : cut2 == n ? 1 : 2;
+        bool nomsg = !n;
+        int r = mpt_stream_reply(srm, idlen, id.data(), nomsg ? 0 : &m);
+        size_t enc = idlen + n + (idlen + n) / 254 + 3;
+        c.logf("mpt_stream_reply(id %s, %zu byte message) with %zu free bytes%s -> %d", hex(id.data(), idlen).c_str(), n, room, app_open ? ", application message open" : "", r);
+        if (r >= 0) {
+          VP_CHECK(c, !app_open, "reply-interleaved", "mpt_stream_reply accepted a reply in the middle of an unfinished outgoing message");
+          std::vector<uint8_t> f = id;
+          f.insert(f.end(), body.begin(), body.end());
+          want.push_back(f);
+          c.label("transport:accepted");
+          if (rejected) { ++accepted_after_reject; c.label("transport:accepted-after-rejection"); }
+        } else {
+          bool must = !app_open && enc + 8 <= room;
+          VP_CHECK(c, !must, "reply-retry-refused", "mpt_stream_reply returned %d for a reply of %zu bytes (encoded <= %zu) with %zu bytes free and no message in progress, after %u rejected repl%s", r, idlen + n, enc, room, rejected, rejected == 1 ? "y" : "ies");
+          ++rejected;
+          c.label(app_open ? "transport:rejected-message-open" : "transport:rejected-no-room");
+        }
+        check_area("after reply");
+      } break;
+      case 1: {  // application pushes part of an outgoing message
+        size_t n = c.range(1, 6);
+        if (n + 4 > room) break;
+        std::vector<uint8_t> part(n);
+        for (size_t i = 0; i < n; i++) part[i] = (uint8_t)('A' + i);
+        ssize_t r = mpt_stream_push(srm, n, part.data());
+        c.logf("mpt_stream_push(%zu bytes) -> %zd", n, r);
+        if (r > 0) { app.insert(app.end(), part.begin(), part.begin() + r); app_open = true; c.label("transport:app-part"); }
+      } break;
+      default: {  // application finishes its message
+        if (!app_open) break;
+        ssize_t r = mpt_stream_push(srm, 0, 0);
+        c.logf("mpt_stream_push(end of message) -> %zd", r);
+        if (r >= 0) { want.push_back(app); app.clear(); app_open = false; check_area("after application message"); }
+      }
+    }
+  }
+  check_area("at end");
+  if (rejected && accepted_after_reject) c.nontrivial();
+}
+
+// ------------------------------------------------------------------ (f) the requester side: mpt_stream_sync
+// Commands wait for the replies to their ids (plus a fallback with id 0); the harness peer writes reply frames.
+// O: every reply frame is handed to a callback exactly once: to the command registered for its id if that command
+// still waits, otherwise to the fallback; no command is called twice ("each request is answered at most once, to
+// the right requester").
+struct SyncWorld;
+struct SyncArg { SyncWorld *w; size_t index; };
+struct SyncWorld {
+  struct Cmd { uintptr_t id; unsigned calls = 0; bool eol = false; std::vector<size_t> frames; };
+  struct Frame { uintptr_t id; std::string payload; unsigned delivered = 0; std::vector<size_t> to; };
+  std::vector<Cmd> cmds;  // cmds[0] = fallback
+  std::vector<Frame> frames;
+  std::vector<SyncArg> args;
+  unsigned total_calls = 0, budget = 0, garbled = 0;
+  static int cb(void *arg, void *mp) {
+    SyncArg *a = (SyncArg *)arg;
+    SyncWorld *w = a->w;
+    Cmd &cmd = w->cmds[a->index];
+    if (!mp) { cmd.eol = true; return 0; }
+    ++cmd.calls;
+    message m = *(message *)mp;
+    char buf[96] = {0};
+    size_t n = mpt_message_read(&m, sizeof buf - 1, buf);
+    unsigned idx = 0;
+    if (n < 5 || buf[0] != 'r' || buf[4] != ';' || sscanf(buf + 1, "%3u", &idx) != 1 || idx >= w->frames.size() || w->frames[idx].payload != std::string(buf, n)) ++w->garbled;
+    else { ++w->frames[idx].delivered; w->frames[idx].to.push_back(a->index); cmd.frames.push_back(idx); }
+    return ++w->total_calls > w->budget ? -1 : 0;  // bounds the loop of a requester that keeps re-reading a message
+  }
+};
+static void sync_history(Ctx &c) {
+  signal(SIGPIPE, SIG_IGN);
+  size_t idlen = c.range(1, 8);
+  int sv[2];
+  VP_CHECK(c, socketpair(AF_UNIX, SOCK_STREAM | SOCK_NONBLOCK | SOCK_CLOEXEC, 0, sv) == 0, "harness-socketpair", "socketpair failed");
+  struct Fd { int fd; ~Fd() { if (fd >= 0) close(fd); } } peer{sv[1]};
+  CObj<mpt::stream> srm;
+  srm->_rd._state.data.msg = -1;
+  struct CloseStream { mpt::stream *s; bool open; ~CloseStream() { if (open) mpt_stream_close(s); } } closer{srm, false};
+  {
+    CObj<mpt::socket> sock;
+    sock->_id = sv[0];
+    int r = mpt_stream_dopen(srm, sock, mpt::stream::RdWr | mpt::stream::Buffer);
+    if (r < 0) close(sv[0]);
+    VP_CHECK(c, r >= 0, "create-refused", "mpt_stream_dopen returned %d", r);
+    closer.open = true;
+  }
+  srm->_wd._enc = mpt_message_encoder(MPT_ENUM(EncodingCobs));
+  srm->_rd._dec = mpt_message_decoder(MPT_ENUM(EncodingCobs));
+  SyncWorld w;
+  size_t ncmd = c.range(1, 5);
+  w.cmds.resize(ncmd + 1);
+  w.args.resize(ncmd + 1);
+  CObj<mpt::array> arr;
+  struct Clear { mpt::array *a; ~Clear() { mpt_command_clear((unique_array<command> *)a); mpt_array_clone(a, 0); } } clear{arr};
+  c.logf("requester: stream over a socketpair (COBS), id length %zu, fallback + %zu waiting command(s)", idlen, ncmd);
+  for (size_t i = 0; i <= ncmd; i++) {
+    w.cmds[i].id = i ? 10 * i + c.range(0, 7) : 0;
+    w.args[i] = SyncArg{&w, i};
+    int r = mpt_command_set((unique_array<command> *)arr.get(), w.cmds[i].id, SyncWorld::cb, &w.args[i]);
+    VP_CHECK(c, r >= 0, "create-refused", "mpt_command_set(id %zu) returned %d", (size_t)w.cmds[i].id, r);
+  }
+  unsigned multi = 0;
+  while (c.more() && w.frames.size() < 40) {
+    size_t k = c.range(1, 3), from = w.frames.size();
+    for (size_t j = 0; j < k; j++) {
+      SyncWorld::Frame f;
+      size_t pick = c.pick(ncmd + 2);
+      f.id = pick <= ncmd && pick ? w.cmds[pick].id : 100 + c.range(0, 9);  // a waiting (or already answered) id, or one nobody waits for
+      char head[8];
+      snprintf(head, sizeof head, "r%03zu;", w.frames.size());
+      f.payload = head;
+      for (size_t n = c.range(0, 20); n; n--) f.payload += (char)('a' + c.pick(26));
+      std::vector<uint8_t> data(idlen, 0);
+      data[idlen - 1] = (uint8_t)f.id;
+      data[0] |= 0x80;
+      data.insert(data.end(), f.payload.begin(), f.payload.end());
+      std::vector<uint8_t> enc = ref::encode(ref::Cobs, data.data(), data.size());
+      VP_CHECK(c, write(peer.fd, enc.data(), enc.size()) == (ssize_t)enc.size(), "harness-write", "peer write failed");
+      c.logf("peer sends reply id %zu payload '%s'", (size_t)f.id, f.payload.c_str());
+      w.frames.push_back(f);
+    }
+    w.budget = w.total_calls + (unsigned)k + 2;
+    for (size_t call = 0; call < 4 * k + 6; call++) {
+      int r = mpt_stream_sync(srm, idlen, (unique_array<command> *)arr.get(), 0);
+      c.logf("  mpt_stream_sync -> %d", r);
+    }
+    // expected receiver of every frame so far: the command of that id at its first appearance, the fallback afterwards
+    std::set<uintptr_t> answered;
+    for (size_t i = 0; i < w.frames.size(); i++) {
+      SyncWorld::Frame &f = w.frames[i];
+      size_t target = 0;
+      for (size_t q = 1; q <= ncmd; q++) if (w.cmds[q].id == f.id && !answered.count(f.id)) target = q;
+      answered.insert(f.id);
+      VP_CHECK(c, f.delivered <= 1, "sync-delivered-twice", "reply %zu (id %zu, '%s') was handed to a callback %u times (first to the %s, then to the %s)", i, (size_t)f.id, f.payload.c_str(), f.delivered,
+               f.to[0] ? "waiting command" : "fallback", f.to[1] ? "waiting command" : "fallback");
+      if (i >= from || f.delivered) VP_CHECK(c, f.delivered == 1, "sync-lost", "reply %zu (id %zu, '%s') was not handed to any callback after %zu calls of mpt_stream_sync", i, (size_t)f.id, f.payload.c_str(), 4 * k + 6);
+      VP_CHECK(c, f.to[0] == target, "sync-wrong-requester", "reply %zu (id %zu) went to %s, expected %s", i, (size_t)f.id, f.to[0] ? ("the command waiting for id " + std::to_string(w.cmds[f.to[0]].id)).c_str() : "the fallback",
+               target ? "the command waiting for that id" : "the fallback");
+    }
+    for (size_t q = 1; q <= ncmd; q++) VP_CHECK(c, w.cmds[q].calls <= 1, "sync-delivered-twice", "the command waiting for id %zu was called %u times", (size_t)w.cmds[q].id, w.cmds[q].calls);
+    VP_CHECK(c, !w.garbled, "stream-delivery", "a callback received a message the peer never sent");
+    if (k > 1) ++multi;
+    c.label("sync:round");
+  }
+  if (multi) { c.nontrivial(); c.label("sync:several-replies-at-once"); }
+}
+
 static void run(Ctx &c) {
   MuteLog mute(c.verbose());
   uint8_t sel = c.u8();
@@ -755,6 +1020,12 @@ static void run(Ctx &c) {
     return;
   }
   if (sel >= 0xd0) { stream_history(c); c.label("part:c-stream-input"); return; }  // 0xd0..0xfe
+  if (sel >= 0xc0) {                                                                  // 0xc0..0xcf (round 5)
+    if (sel < 0xc8) { stream_history(c, true); c.label("part:d-connection"); }
+    else if (sel < 0xcc) { transport_history(c); c.label("part:e-transport"); }
+    else { sync_history(c); c.label("part:f-sync"); }
+    return;
+  }
   switch (sel % 8) {
     case 0: case 1: { size_t w = c.range(0, 9); id_case(c, draw_id(c, w), w); c.label("part:a-id"); } break;
     case 2: header_case(c); c.label("part:a-header"); break;
@@ -781,9 +1052,13 @@ static Target t = {
     "(c) [first byte 0xd0..0xfe, 18%] mpt_stream_input(socketpair, RdWr|Write|Buffer, COBS|COBS/R, id length 1..8) served the way the notifier serves an input; harness client sends rounds of 1..4 "
     "messages (request with non-zero id / one-way with zero id / reply-type, text payload 5..65 bytes), handler per message: nothing, fail, mpt_context_reply, reply(msg), reply twice, defer; "
     "the client decodes every frame the server sends with the reference COBS codec and accounts it to a delivered request. "
+    "(d) [0xc0..0xc7] the same client against a connection over a stream (state of mpt_connection_open: RdWr|Buffer, COBS; served like output_remote.c: mpt_stream_poll(events, 0) + mpt_connection_dispatch), "
+    "handler may really defer; (e) [0xc8..0xcb] mpt_stream_reply on a memory stream with a fixed 12..400 byte output area (replies that fit / do not fit, unfinished application messages in between), "
+    "output decoded with the reference codec; (f) [0xcc..0xcf] mpt_stream_sync with a fallback + 1..5 waiting commands, peer writes 1..3 reply frames per round (waiting, answered, unknown ids). "
     "exhaustive: all ids with <= 2 significant bytes x widths 0..9. non-trivial: (a) round trip at width >= 2 or id within 2 of a reply-bit boundary or a refused 9+ byte header; "
     "(b) at least one accepted send and at least one of {defer, refused second reply, retry after rejection, default reply on release}; "
-    "(c) a default-answered request followed by a later message, or default and explicit answers in one case; distinct by hash of the draw sequence.",
+    "(c,d) a default-answered request followed by a later message, or default and explicit answers in one case; (e) a reply accepted after a rejected one; (f) a round with several replies; "
+    "distinct by hash of the draw sequence.",
     run,
     {160, 600},
     false,
